@@ -36,6 +36,10 @@ func bookKey(filename string) string {
 	if i := strings.Index(b, "#"); i >= 0 {
 		b = b[:i]
 	}
+	if strings.HasPrefix(b, "Part.v") {
+		// the secondary books of the specifier cases carry a dot in their names (Part.v1, Part.v2, …)
+		return "Part" + strings.TrimSuffix(strings.TrimSuffix(b[len("Part.v"):], ".xlsx"), ".csv")
+	}
 	b = strings.TrimSuffix(b, filepath.Ext(b))
 	if b == "ZONE1" {
 		b = "Zone2" // the second book is written as ZONE1 in some cases (see runMergeCase)
